@@ -584,6 +584,9 @@ type ReplayFile struct {
 	Prop     string    `json:"prop"`
 	Universe *Universe `json:"universe"`
 	Finding  Finding   `json:"finding"`
+	// publisher stage
+	PubPlan    *PubPlan    `json:"pub_plan,omitempty"`
+	PubFinding *PubFinding `json:"pub_finding,omitempty"`
 }
 
 func matchKnown(known []core.Finding, f Finding) *core.Finding {
@@ -652,6 +655,9 @@ func Check(c *core.Ctx) int {
 	}
 	keyper.VerifSetEonPubkeyTickerTime(LoopTicker)
 	plans := Plans(c.Thorough(), c.Seed)
+	if os.Getenv("VERIF_C20_ONLY") == "pub" { // development aid: only the publisher stage
+		plans = plans[:1]
+	}
 	known := core.LoadKnown().For(c.Prop)
 	var outs []*Outcome
 	violations, reported := 0, 0
@@ -698,7 +704,63 @@ func Check(c *core.Ctx) int {
 			runs[pi].out, runs[pi].err = ReplayAndValidate(c, g, wit)
 		}(pi)
 	}
+	// second stage: the real EonKeyPublisher behind the publication callback
+	pubPlans := PubPlans(c.Thorough(), c.Seed)
+	type pubRun struct {
+		out *PubOutcome
+		err error
+	}
+	pubRuns := make([]pubRun, len(pubPlans))
+	for pi := range pubPlans {
+		pwg.Add(1)
+		go func(pi int) {
+			defer pwg.Done()
+			g, err := GeneratePub(c, pubPlans[pi])
+			if err != nil {
+				pubRuns[pi].err = err
+				return
+			}
+			c.Logf("plan %s: TLC %d states (%d distinct), %d schedules, specviol=%q (%.1fs)", g.Plan.Name, g.States, g.Distinct, len(g.Histories), g.SpecViol, g.Wall)
+			pubRuns[pi].out, pubRuns[pi].err = ReplayAndValidatePub(c, g)
+		}(pi)
+	}
 	pwg.Wait()
+	var pubOuts []*PubOutcome
+	for pi, p := range pubPlans {
+		if pubRuns[pi].err != nil {
+			fmt.Println("INCONCLUSIVE:", pubRuns[pi].err)
+			return core.ExitInconclusive
+		}
+		out := pubRuns[pi].out
+		pubOuts = append(pubOuts, out)
+		if out.Gen.SpecViol != "" {
+			specLeads = append(specLeads, p.Name+": "+out.Gen.SpecViol)
+		}
+		c.Logf("plan %s: %d schedules replayed on the real EonKeyPublisher (%.1fs), %d trace lines validated (%.1fs), %d findings, %d drift; runs with >=2 hand-overs during one attempt: %d",
+			p.Name, out.Runs, out.ReplayS, out.Lines, out.ValidateS, len(out.Findings), len(out.Drift), out.Handed2)
+		if len(out.Pins) > 0 {
+			fmt.Println("INCONCLUSIVE: the database fake saw statements it does not implement:", out.Pins)
+			return core.ExitInconclusive
+		}
+		if out.Runs == 0 || out.Lines == 0 {
+			fmt.Println("INCONCLUSIVE: nothing replayed")
+			return core.ExitInconclusive
+		}
+		for i, d := range out.Drift {
+			if i < 3 {
+				fmt.Printf("DRIFT property=%s plan=%s (observed event is not one the code-shaped spec allows) %s\n", c.Prop, p.Name, describePub(d))
+			}
+		}
+		for _, f := range out.Findings {
+			violations++
+			if reported < 5 {
+				pp, ff := p, f
+				path := c.WriteReplay(fmt.Sprintf("%s-%d", p.Name, reported), ReplayFile{Prop: c.Prop, PubPlan: &pp, PubFinding: &ff})
+				c.Violation(path, describePub(f))
+				reported++
+			}
+		}
+	}
 	for pi, p := range plans {
 		if runs[pi].err != nil {
 			fmt.Println("INCONCLUSIVE:", runs[pi].err)
@@ -742,7 +804,7 @@ func Check(c *core.Ctx) int {
 			core.PrintKnown(kf)
 		}
 	}
-	writeEvidence(c, outs, violations, specLeads, knownHits, what)
+	writeEvidence(c, outs, pubOuts, violations, specLeads, knownHits, what)
 	if violations > 0 {
 		return core.ExitViolation
 	}
@@ -757,7 +819,7 @@ func Check(c *core.Ctx) int {
 	return core.ExitOK
 }
 
-func writeEvidence(c *core.Ctx, outs []*Outcome, violations int, specLeads []string, knownHits map[string]int, sens string) {
+func writeEvidence(c *core.Ctx, outs []*Outcome, pubOuts []*PubOutcome, violations int, specLeads []string, knownHits map[string]int, sens string) {
 	states, trans, traces, steps, lines, nontriv, drift := 0, 0, 0, 0, 0, 0, 0
 	samples := []any{}
 	var unis []any
@@ -782,6 +844,25 @@ func writeEvidence(c *core.Ctx, outs []*Outcome, violations int, specLeads []str
 			"replay_s": o.ReplayS, "validate_s": o.ValidateS,
 		})
 	}
+	var pubs []any
+	pubRuns2 := 0
+	for _, o := range pubOuts {
+		states += o.Gen.Distinct
+		trans += o.Gen.States
+		traces++
+		steps += o.Lines
+		lines += o.Lines
+		nontriv += o.Handed2
+		pubRuns2 += o.Runs
+		drift += len(o.Drift)
+		if len(pubs) < 2 {
+			samples = append(samples, o.Sample)
+		}
+		pubs = append(pubs, map[string]any{"name": o.Gen.Plan.Name, "keys": o.Gen.Plan.Keys, "max_fails": o.Gen.Plan.MaxFails,
+			"handovers_by_real_handler_tick": o.Gen.Plan.Composed, "tlc_distinct_states": o.Gen.Distinct, "tlc_wall_s": o.Gen.Wall,
+			"schedules_replayed": o.Runs, "events_observed": o.Lines, "runs_with_two_or_more_handovers_during_one_attempt": o.Handed2,
+			"replay_s": o.ReplayS, "validate_s": o.ValidateS})
+	}
 	if len(samples) == 0 {
 		samples = append(samples, "nothing replayed")
 	}
@@ -795,8 +876,9 @@ func writeEvidence(c *core.Ctx, outs []*Outcome, violations int, specLeads []str
 			"(every permutation of the returned rows, optional statement failure, the mechanism refusing its n-th call) for every option combination, checks the " +
 			"property layer on every transition and prints one history per distinct (state, last step); the prefix tree of the histories is walked on the real " +
 			"handler (database snapshots at branching points); evaluations = steps executed on real code; distinct_nontrivial = distinct (mode, pending rows, " +
-			"row order, faults) of ticks that found two or more keys pending; every step is one trace line validated by EonPKTrace (pass A monitors, pass B conformance)",
-		"universes": unis, "trace_lines_validated": lines, "drift_lines": drift,
+			"row order, faults) of ticks that found two or more keys pending, plus publisher schedules with two or more hand-overs while one attempt is in flight; every step is one trace line validated by EonPKTrace (pass A monitors, pass B conformance). " +
+			"Publisher stage: TLC prints the whole prefix tree of interleavings of Publish with the steps of the publisher routine (EonPubMC, no VIEW); every history is replayed as a gated schedule on the real eonkeypublisher.EonKeyPublisher (blocking gates in the database fake and the Ethereum node double), then the publisher runs freely until it rests; every observed event is a trace line validated by EonPubTrace",
+		"universes": unis, "publisher_stage_universes": pubs, "publisher_schedules_replayed": pubRuns2, "trace_lines_validated": lines, "drift_lines": drift,
 		"spec_level_counterexamples": specLeads, "known_finding_hits": knownHits,
 		"sensitivity_orig_loop": sens,
 	}
@@ -823,9 +905,35 @@ func Replay(c *core.Ctx) int {
 		return core.ExitInconclusive
 	}
 	var rf ReplayFile
-	if err := json.Unmarshal(b, &rf); err != nil || rf.Universe == nil {
+	if err := json.Unmarshal(b, &rf); err != nil || (rf.Universe == nil && rf.PubPlan == nil) {
 		fmt.Println("INCONCLUSIVE: unreadable replay file", err)
 		return core.ExitInconclusive
+	}
+	if rf.PubPlan != nil && rf.PubFinding != nil {
+		pw, err := newPubWorld(*rf.PubPlan)
+		if err != nil {
+			fmt.Println("INCONCLUSIVE:", err)
+			return core.ExitInconclusive
+		}
+		defer pw.Close()
+		lines := pw.run(rf.PubFinding.Ops)
+		trace := encodePubLines(lines)
+		vr, err := ValidatePubTrace(*rf.PubPlan, trace)
+		if err != nil {
+			fmt.Println("INCONCLUSIVE:", err)
+			return core.ExitInconclusive
+		}
+		os.Stdout.Write(trace)
+		fmt.Printf("viol=%v drift=%v\n", vr.Viol, vr.Drift)
+		for _, v := range vr.Viol {
+			if len(v) == 2 && v[1] == rf.PubFinding.Monitor {
+				k, _ := v[0].(float64)
+				c.Violation(c.Replay, "reproduced: "+describePub(PubFinding{Monitor: rf.PubFinding.Monitor, Plan: rf.PubPlan.Name, Ops: rf.PubFinding.Ops, Lines: lines, At: int(k) - 1}))
+				return core.ExitViolation
+			}
+		}
+		fmt.Println("not reproduced")
+		return core.ExitOK
 	}
 	w, err := NewWorld(rf.Universe)
 	if err != nil {
